@@ -342,6 +342,8 @@ def _arith(op, x, y):
 RANK = {'number': 0, 'text': 1, 'logical': 2}
 NEUTRAL = {'number': 0, 'text': '', 'logical': False}
 _SIMPLE_TEXT = re.compile(r'^[a-z0-9]*$')
+_LOW_PUNCT = '[\\]^_`'
+_LOW_PUNCT_TEXT = re.compile(r'^[a-z0-9\[\\\]^_`]*$')
 
 
 def compare(a, b):
@@ -367,6 +369,20 @@ def compare(a, b):
             return -1 if la < lb else 1
         if la == '' or lb == '':
             return -1 if la == '' else 1
+        if _LOW_PUNCT_TEXT.match(la) and _LOW_PUNCT_TEXT.match(lb):
+            # Excel's ordering rules put punctuation before letters.  Decided here only where the first
+            # difference is one of [ \ ] ^ _ ` against a letter (or one text is a prefix of the other): a
+            # case fold to upper case instead of lower case moves exactly these six characters behind the letters
+            for ca, cb in zip(la, lb):
+                if ca != cb:
+                    if ca in _LOW_PUNCT and cb.isalpha():
+                        return -1
+                    if cb in _LOW_PUNCT and ca.isalpha():
+                        return 1
+                    if ca.isalnum() and cb.isalnum():
+                        return -1 if ca < cb else 1
+                    return 'ne'
+            return -1 if len(la) < len(lb) else 1
         return 'ne'
     if ka == 'number' and (isinstance(a, Inexact) or isinstance(b, Inexact)):
         return None
